@@ -19,7 +19,8 @@ LEVEL_TEXT = ('Static decision of the structural necessary conditions of query p
               'array whose dtype every definition pins); no other attribute is written by queries; configuration '
               'attributes are written only by the constructor/SetBounds, which copy their inputs; lazily cached '
               'attributes are functions of the configuration, re-established by every routine that changes what they '
-              'depend on; configuration routines never define an attribute from its own previous value.')
+              'depend on; configuration routines never define an attribute from its own previous value; '
+              'the evolvent keeps no process-wide state.')
 EXPLANATION = ('Points-to facts decide aliasing of arguments and results with the evolvent\'s state; the scratch '
                'typestate is decided on path summaries of the public queries with the private helpers inlined in '
                'call order (node/number recursions kept opaque, loops unrolled once).')
